@@ -87,6 +87,13 @@ func c33BuildStorage(r *vx.Run) (*teststorage.TestStorage, error) {
 	}
 	// a series whose only sample is one hour before the window
 	addF(ls("__name__", "old", "a", "1"), -3600000, 1)
+	// series whose chunk spans the whole window but that have NO sample in the (lookback-extended)
+	// range of a selector evaluated late in the window: only a staleness marker / nothing at all
+	addF(ls("__name__", "gone", "a", "1"), 0, 1)
+	addF(ls("__name__", "gone", "a", "1"), 30000, stale)
+	addF(ls("__name__", "gone", "a", "1"), 630000, 5)
+	addF(ls("__name__", "gone", "a", "2"), 0, 1)
+	addF(ls("__name__", "gone", "a", "2"), 1200000, 2)
 	specials := []float64{0, -1, math.NaN(), math.Inf(1), math.Inf(-1), 1e308, math.Copysign(0, -1), 5e-324, 1, 1, -1e308}
 	counter := []string{"e01b-s0-one", "e02-s0-two", "e03-s0-grown", "e03b-s0-grown-more"}
 	for i := 0; i < c33Points; i++ {
@@ -425,6 +432,7 @@ func (g *c33Gen) selectors(thorough bool) {
 		"rate(f[2m])[5m:30s]", "max_over_time(rate(f[1m])[3m:30s])[5m:1m]", "sum_over_time(sum_over_time(h[1m])[3m:30s])", "avg_over_time((h + h)[5m:1m])",
 		"count_over_time((-h)[5m:1m])", "last_over_time(mx[5m:1m])", "histogram_quantile(0.5, rate(h[2m])[5m:1m])",
 		"f[1m*2]", "f offset (1m+30s)", "f[step()]", "f[max(step(),1m)]", "f[range()]", "f[1m^100]", "f[1m/0]", "f[-1m]", "f offset (0s/0)", "h[min(step(),1m):step()]",
+		"gone[30s] anchored", "gone[30s] smoothed", "gone[30s]", "rate(gone[30s] anchored)", "increase(gone[30s] smoothed)", "gone smoothed", "delta(gone[1m] anchored)",
 		"rate(f[2m] anchored)", "rate(h[2m] anchored)", "increase(f[2m] smoothed)", "rate(mx[5m] smoothed)", "delta(f[2m] anchored)", "f[2m] anchored", "f smoothed", "sum_over_time(f[2m] smoothed)",
 		`"abc"`, `""`, "1", "NaN", "-Inf", "1 + 1", "1 / 0", "time()", "pi()", "scalar(f) + 1", "scalar(h)", "vector(NaN)", "vector(time())", "1 == bool 1", "1 == 1", `"a" + "b"`, `"a" + 1`,
 		"(f)", "((h))", "(f[1m])", "(1)", `("s")`,
